@@ -1796,7 +1796,7 @@ def gen_conv_box(rng, am, setting, plain=False, equal=False):
     return box, label, member
 
 
-def gen_conv_case(rng, am, setting, mode='random', equal=False, decimals=None):
+def gen_conv_case(rng, am, setting, mode='random', equal=False, decimals=None, cell_noise=False):
     """a conventional cell of the setting: 1-3 motif atoms per lattice point (the first one, type 1, on the lattice
     points; types, charges and tags are functions of the motif atom - the crystal has the primitive periodicity).
     Storage: `plain` = every coordinate in [0, 1); otherwise a coordinate 0 is stored as 1.0 (the far face / edge /
@@ -1866,6 +1866,13 @@ def gen_conv_case(rng, am, setting, mode='random', equal=False, decimals=None):
                      'atol': 10.0 ** (1 - decimals), 'rtol': rng.choice([None, None, 1e-5, 1e-7, 1e-3, 0.0]),
                      # the documented small shift of the primitive-cell cut, now and then given explicitly
                      'smallshift': rng.choice([None, None, None, [0.002, 0.001, 0.003], (0.001, 0.001, 0.001)])}
+        if cell_noise:
+            # ... and the cell itself is only nearly a cell of its family: strained by up to 5e-5 in every component
+            # (lengths off by 1.5e-4 relative, angles by 3e-3 degrees - beyond what numpy's default rtol of 1e-5 lets pass
+            # against 90 degrees), converted with the rtol a caller would give for such a cell (2.5e-3; the generated
+            # constants differ by 6 % or more where they differ)
+            tolerance['cell_noise'] = [[rng.choice([-5e-5, 0.0, 3e-5, 5e-5]) for _ in range(3)] for _ in range(3)]
+            tolerance['rtol'] = 2.5e-3
     return {'setting': setting, 'family': fam, 'family_member': member, 'mode': mode, **tolerance,
             'vects': box.vects.tolist(), 'origin': box.origin.tolist(),
             'shift': [[x.numerator, x.denominator] for x in shift],
@@ -1890,6 +1897,8 @@ def build_conv(am, case):
     if case.get('decimals') is not None:
         f = case['scale']
         conv.box_set(vects=conv.box.vects * f, origin=conv.box.origin * f, scale=True)
+        if case.get('cell_noise'):
+            conv.box_set(vects=conv.box.vects @ (np.eye(3) + np.array(case['cell_noise'])), origin=conv.box.origin, scale=True)
         conv.atoms.pos = np.round(conv.atoms.pos, case['decimals'])
     return conv
 
@@ -1996,10 +2005,13 @@ def _search_conversions(ctx, rng, am):
         # self-detecting 't'
         for variant in range(ctx.n(4, 24)):
             case = gen_conv_case(rng, am, setting, mode=('plain', 'far')[(variant // 4) % 2] if variant % 3 else 'plain',
-                                 decimals=5 + variant % 4)
+                                 decimals=5 + variant % 4, cell_noise=(variant // 2) % 2 == 1)
             case['op'] = 'conversion'
             case['call_setting'] = 't' if setting[0] == 't' and variant % 2 == 0 else setting
             case['check_basis'] = True
+            if variant % 4 == 0:
+                # (rtol and atol as far apart as they can be: each must reach the test it is meant for, in every call)
+                case['rtol'] = 0.0
             ctx.stats.case('oracle:conversion-decimals', (setting, repr(case['stored']), case['decimals'], repr(case['vects'])),
                            sample={'op': 'c2p->p2c', 'setting': setting, 'called': case['call_setting'], 'family': case['family'],
                                    'decimals': case['decimals'], 'atol': case['atol'], 'rtol': case['rtol']})
@@ -2033,10 +2045,12 @@ def _run_conversion(ctx, am, case):
         if case.get('rtol') is not None:
             kw['rtol'] = case['rtol']
         if case.get('smallshift') is not None:
-            kw['smallshift'] = case['smallshift']
+            # (list / tuple as stored, every third time a numpy array: "array-like object")
+            kw['smallshift'] = np.array(case['smallshift']) if nb % 3 == 0 else case['smallshift']
     what = (f"{case['family']} cell, setting {setting}" + (" (called with 't')" if case['call_setting'] != setting else '')
             + ('' if case['check_basis'] else ', check_basis=False')
             + (f", cell x {case['scale']} with the Cartesian coordinates rounded to {dec} decimals" if dec is not None else '')
+            + (f", cell strained by 1 + {case['cell_noise']}" if case.get('cell_noise') else '')
             + (f", options {kw}" if kw else '') + f", relative positions {case['stored']}"
             + (f", pbc {case['pbc']}" if not all(case.get('pbc', [True])) else '')
             + (f", history on the object {case['history']}" if case.get('history') else ''))
@@ -2315,7 +2329,12 @@ def _corr_resolve(ctx, rng, am):
             # a member of the family (b = c, beta = gamma, hexagonal c = a), asked with check_family=True
             equal = rng.choice([(f, pt) for f in CONV_FAMILIES[setting] if f in EQUAL_PATTERNS
                                 for pt in sorted(EQUAL_PATTERNS[f]) if EQUAL_PATTERNS[f][pt]])
-        case = gen_conv_case(rng, am, setting, mode=rng.choice(['plain', 'far', 'random']), equal=equal, decimals=dec)
+        elif equal and it % 10 == 6 and rng.random() < 0.7:
+            # not a member (a = c, a = b = c, alpha = beta ...): refused with check_family on
+            equal = rng.choice([(f, pt) for f in CONV_FAMILIES[setting] if f in EQUAL_PATTERNS
+                                for pt in sorted(EQUAL_PATTERNS[f]) if not EQUAL_PATTERNS[f][pt]] or [True])
+        case = gen_conv_case(rng, am, setting, mode=rng.choice(['plain', 'far', 'random']), equal=equal, decimals=dec,
+                             cell_noise=(dec is not None and it % 10 in (3, 5)))
         case['history'], case['pbc'] = [], [True, True, True]
         if kind == 'spoiled':
             per = len(case['atype']) // NLAT[setting]
@@ -2331,7 +2350,9 @@ def _corr_resolve(ctx, rng, am):
         if dec is not None:
             # every other time the tolerance a caller would pass for such a file (accepts), else one that does not
             atol = 10.0 ** (1 - dec) if it % 10 in (1, 5) else rng.choice([10.0 ** (1 - dec), 10.0 ** (-2 - dec), 1e-8, 1e-3])
-        cf = (it % 10 == 2) if equal else rng.random() < 0.8
+        cf = (it % 10 == 2 or (it % 10 == 6 and rng.random() < 0.6)) if equal else rng.random() < 0.8
+        if case.get('cell_noise'):
+            rtol = rng.choice([2.5e-3, 2.5e-3, 1e-5, 1e-7])
         ask = setting
         r = rng.random()
         if setting[0] == 't' and (r < 0.5 or it % 10 in (1, 3, 5)):
@@ -2353,12 +2374,15 @@ def _corr_resolve(ctx, rng, am):
                                                 'decimals': dec, 'model': out})
         ctx.extra.setdefault('resolve_outcomes', {})
         ctx.extra['resolve_outcomes'][f'{kind}:{out}'] = ctx.extra['resolve_outcomes'].get(f'{kind}:{out}', 0) + 1
-        kw = dict(rtol=rtol, atol=atol, check_family=cf)
+        # (the flag as a bool or as a truthy / falsy non-bool: 1, 0, numpy.True_, numpy.False_)
+        cfa = rng.choice([cf, cf, (1 if cf else 0), np.bool_(cf)])
+        kw = dict(rtol=rtol, atol=atol, check_family=cfa)
         if (rtol, atol) == (1e-5, 1e-8) and rng.random() < 0.5:
-            kw = dict(check_family=cf)
+            kw = dict(check_family=cfa)
         if cf and rng.random() < 0.5:
             del kw['check_family']
-        rp = {'op': 'resolve', 'case': case, 'asked': ask, 'kw': {k_: float(v) if not isinstance(v, bool) else v for k_, v in kw.items()},
+        rp = {'op': 'resolve', 'case': case, 'asked': ask,
+              'kw': {k_: (bool(v) if k_ == 'check_family' else float(v)) for k_, v in kw.items()},
               'line': line}
         try:
             if ask != 't' and it % 2 == 0:
